@@ -989,4 +989,51 @@ theorem putAux_heap (t : Tree) (k v : Bytes) (pr : Int) (h : Heap t) :
             exact ⟨node l k' v' p' a, kk, vv, c, rfl, fun q hq =>
               ⟨⟨hq.1, hq.2.1, (i5 q hq.2.2).1⟩, (i5 q hq.2.2).2⟩⟩
 
+/-! ### Delete keeps the heap order (with the child choice `left.priority <= right.priority`) -/
+
+theorem allGe_merge (q : Int) (l r : Tree) (hl : AllGe q l) (hr : AllGe q r) : AllGe q (merge l r) := by
+  fun_induction merge l r with
+  | case1 r => exact hr
+  | case2 l _ => exact hl
+  | case3 ll lk lv lp lr rl rk rv rp rr h ih =>
+    exact ⟨hl.1, hl.2.1, ih hl.2.2 hr⟩
+  | case4 ll lk lv lp lr rl rk rv rp rr h ih =>
+    exact ⟨hr.1, ih hl hr.2.1, hr.2.2⟩
+
+theorem heap_allGe_root {l : Tree} {k v : Bytes} {p : Int} {r : Tree} (h : Heap (node l k v p r)) :
+    AllGe p (node l k v p r) := ⟨Int.le_refl _, h.2.2.1, h.2.2.2⟩
+
+theorem heap_merge (l r : Tree) (hl : Heap l) (hr : Heap r) : Heap (merge l r) := by
+  fun_induction merge l r with
+  | case1 r => exact hr
+  | case2 l _ => exact hl
+  | case3 ll lk lv lp lr rl rk rv rp rr h ih =>
+    -- left root has the lower (or equal) priority: it stays on top
+    refine ⟨hl.1, ih hl.2.1 hr, hl.2.2.1, ?_⟩
+    exact allGe_merge lp lr _ hl.2.2.2 (allGe_mono h (heap_allGe_root hr))
+  | case4 ll lk lv lp lr rl rk rv rp rr h ih =>
+    have hlt : rp ≤ lp := by omega
+    refine ⟨ih hl hr.1, hr.2.1, ?_, hr.2.2.2⟩
+    exact allGe_merge rp _ rl (allGe_mono hlt (heap_allGe_root hl)) hr.2.2.1
+
+theorem allGe_delete (q : Int) (t : Tree) (k : Bytes) (h : AllGe q t) : AllGe q (delete t k) := by
+  induction t with
+  | nil => exact h
+  | node l k' v' p' r ihl ihr =>
+    simp only [delete]
+    split
+    · exact ⟨h.1, ihl h.2.1, h.2.2⟩
+    · exact ⟨h.1, h.2.1, ihr h.2.2⟩
+    · exact allGe_merge q l r h.2.1 h.2.2
+
+theorem heap_delete (t : Tree) (k : Bytes) (h : Heap t) : Heap (delete t k) := by
+  induction t with
+  | nil => exact h
+  | node l k' v' p' r ihl ihr =>
+    simp only [delete]
+    split
+    · exact ⟨ihl h.1, h.2.1, allGe_delete p' l k h.2.2.1, h.2.2.2⟩
+    · exact ⟨h.1, ihr h.2.1, h.2.2.1, allGe_delete p' r k h.2.2.2⟩
+    · exact heap_merge l r h.1 h.2.1
+
 end ElaVerif.Treap
